@@ -18,7 +18,7 @@ Definition rs_cds_newer (dgc cgc cmax dmax dfrom : N) : bool := N.ltb (cmax) (dm
 Definition rs_should_reset (dgc dmax sgc smax : N) : bool := andb (N.ltb (dgc) (sgc)) (N.ltb (dmax) (sgc)).
 
 (* state.rs, fn try_set_heartbeat: self.heartbeat.0 == 0 *)
-Definition rs_hb_first (hb : N) : bool := N.eqb (hb) (0%N).
+Definition rs_hb_first (hb nhb : N) : bool := N.eqb (hb) (0%N).
 
 (* state.rs, fn try_set_heartbeat: heartbeat_new_value > self.heartbeat *)
 Definition rs_hb_fresh (nhb hb : N) : bool := N.ltb (hb) (nhb).
